@@ -336,13 +336,16 @@ func verifHarness_C12_parse_timezone() {
 		off = -off
 	}
 	in := string(s)
-	verifMonitor(true)
-	t, err := parseTime(in)
-	verifMonitor(false)
-	verifAssert(err == nil, "C12:parse-ok")
-	if err == nil {
-		_, goff := t.Zone()
-		verifAssert(goff == off, "C12:parse-result-as-when-running-alone")
-	}
+	// a second, different zone parsed at the same time
+	other := "2006-01-02T15:04:05+11:45"
+	verifConcurrently(func() {
+		t, err := parseTime(in)
+		verifAssert(err == nil, "C12:parse-ok")
+		if err == nil {
+			_, goff := t.Zone()
+			verifAssert(goff == off, "C12:parse-result-as-when-running-alone")
+		}
+		_, _ = parseTime(other)
+	})
 	verifReach("end")
 }
